@@ -1,8 +1,10 @@
 (* C20: the shape shared by the recursive generators (mermaid sequence / integration diagrams, the
-   pass-through walk of the integration builder): a depth-first expansion of call edges that carries a
-   growing list of visited keys by reference (`*[]sequencePair`, `*[]integrationPair`, `b.walked`).
-   Go recursion is modelled with explicit fuel; the termination theorem is in WalkProps.v.
-   Definitions only. *)
+   pass-through walk of the integration builder, the PlantUML sequence-diagram visitor): a depth-first
+   expansion of call edges that carries a set of visited / in-progress keys by reference
+   (`*[]sequencePair`, `*[]integrationPair`, `IntsBuilder.walking`, `SequenceDiagramVisitor.visited`).
+   WHEN a key is marked and un-marked relative to the re-entry test is a parameter (`discipline`); what the
+   current source does is a Gen fact (Gen/CmdGuards.v). Go recursion is modelled with explicit fuel; the
+   termination theorem is in WalkProps.v. Definitions only. *)
 From Coq Require Import List Bool Arith.
 Import ListNotations.
 
@@ -18,11 +20,38 @@ Inductive site :=
 | SDbOrder         (* database.processTableDepth: recursion without progress *)
 | SMSeqErr         (* mermaid/sequencediagram: panic(...) on a callee error *)
 | SMIntApp         (* mermaid/integrationdiagram: m.Apps[name].Endpoints on an undefined app *)
-| SRender.         (* cmd/sysl diagramCmd.Execute: mermaid.Init()/Execute panic (no browser) *)
+| SRender          (* cmd/sysl diagramCmd.Execute: mermaid.Init()/Execute panic (no browser) *)
+| SSdTarget        (* cmdutils.SequenceDiagramVisitor.visitEndpoint: panicking application()/endpoint() lookup of a call target *)
+| SDeltaRelation   (* database.generateDatabaseScriptModify: GetRelation() of a non-table type handed to the table writers *)
+| SDeltaTrim       (* database.writeModifySQLForATable: str[:len(str)-1] on an empty column definition *)
+| STemplateApp     (* transforms templated.Apply and semantic.Apply: eval.addAppToValueMap(nil) for an --app-name the model does not define *)
+| SRigApp.         (* testrig.appNeedsDB: app.Attrs of a service that names no application *)
 
 Inductive outcome := Ok | Err | Panic (s:site) | OutOfFuel.
 
 Definition fine (o:outcome) : bool := match o with Ok | Err => true | _ => false end.
+
+(* The marker discipline of a walk, as read from the source:
+   d_test    is the set consulted before an edge's callee is expanded (`if _, active := b.walking[key]; active { return }`,
+             `if !sequencePairsContain(..)`, `_, hitVisited := v.visited[visiting]`)
+   d_mark    when the key is recorded: never / before the test (every entry then looks like a re-entry) / after the
+             test, before the callee's expansion
+   d_unmark  when it is removed: never (mermaid pair lists: a key stays for the rest of the run) / after the callee's
+             expansion, on the entered path only (`defer delete(b.walking, key)` placed after the test;
+             `v.visited[visiting]--` behind `p.Accept(v)`) / on every exit, i.e. also when the re-entry test cut the
+             edge (a `defer delete` placed before the test, a delete in the cut branch) *)
+Inductive marking := MNever | MBeforeTest | MAfterTest.
+Inductive unmarking := UNever | UAfterExpansion | UEveryExit.
+Record discipline := { d_test : bool; d_mark : marking; d_unmark : unmarking }.
+
+(* the disciplines that terminate on every graph (WalkProps.walk_fine); un-marking on a cut re-entry does not
+   (WalkProps.cut_unmark_refuted) *)
+Definition terminating (d:discipline) : bool :=
+  d_test d && match d_mark d, d_unmark d with
+              | MBeforeTest, _ => true
+              | MAfterTest, UNever | MAfterTest, UAfterExpansion => true
+              | _, _ => false
+              end.
 
 Section Walk.
   Context {node key : Type}.
@@ -31,21 +60,21 @@ Section Walk.
   Definition edge := (outcome * option (key * node))%type.
   Variable expand : node -> outcome * list edge.   (* the node's own lookups, then its call edges in order *)
   Variable onerr : outcome.                        (* what the caller makes of a callee that returned an error *)
-  Variable check : bool.                           (* is the visited list consulted at all *)
-  Variable persist : bool.                         (* true: a key stays recorded for the rest of the run (mermaid pairs);
-                                                      false: it is recorded only while its callee is being expanded
-                                                      (IntsBuilder.walking: `defer delete(b.walking, key)`) *)
+  Variable d : discipline.
 
   Definition memk (k:key) (l:list key) : bool := existsb (keqb k) l.
+  Definition removek (k:key) (l:list key) : list key := filter (fun x => negb (keqb k x)) l.
 
   Fixpoint go (rec : node -> list key -> outcome * list key) (es:list edge) (vis:list key) : outcome * list key :=
     match es with
     | [] => (Ok, vis)
     | (Ok, None) :: r => go rec r vis
     | (Ok, Some (k, n')) :: r =>
-        if check && memk k vis then go rec r vis
-        else match rec n' (k :: vis) with
-             | (Ok, v2) => go rec r (if persist then v2 else vis)
+        let vis0 := match d_mark d with MBeforeTest => k :: vis | _ => vis end in
+        if d_test d && memk k vis0
+        then go rec r (match d_unmark d with UEveryExit => removek k vis0 | _ => vis0 end)     (* the edge is cut *)
+        else match rec n' (match d_mark d with MAfterTest => k :: vis0 | _ => vis0 end) with
+             | (Ok, v2) => go rec r (match d_unmark d with UNever => v2 | _ => removek k v2 end)
              | (Err, v2) => (onerr, v2)
              | (o, v2) => (o, v2)
              end
@@ -61,3 +90,10 @@ Section Walk.
              end
     end.
 End Walk.
+
+(* the two disciplines found in the repository *)
+Definition d_persistent : discipline := {| d_test := true; d_mark := MAfterTest; d_unmark := UNever |}.
+Definition d_in_progress : discipline := {| d_test := true; d_mark := MAfterTest; d_unmark := UAfterExpansion |}.
+(* the slips: no test at all; the un-mark moved in front of the test / into the cut branch *)
+Definition d_untested : discipline := {| d_test := false; d_mark := MAfterTest; d_unmark := UAfterExpansion |}.
+Definition d_cut_unmarks : discipline := {| d_test := true; d_mark := MAfterTest; d_unmark := UEveryExit |}.
